@@ -36,6 +36,9 @@ func CanonTerm(t engine.Term, env *engine.Env, r *Renamer) string {
 	return sb.String()
 }
 
+// AtomText renders an atom name the way CanonTerm does.
+func AtomText(s string) string { return atomText(s) }
+
 func atomText(s string) string {
 	if s == "" {
 		return "''"
